@@ -188,3 +188,15 @@ reg("C29", "tsx", "Complete reachability analysis of StreamSource (free o.ready)
 reg("C30", "tsx", "Complete reachability analysis of InputSampler and OutputBuffer for all eight (edge, polarity, synchronize) settings, "
     "every (trigger, data, enable) valuation in every state, against a model holding the last two trigger levels.",
     "explicit-state BFS of the real elaborated circuit against a two-cycle trigger-history model")
+
+reg("C31", "tsx", "Complete reachability analysis of HwCounter (2-3 bit registers, 1-3 ways), TaggedCounter (15 tag sets: ranges, lists "
+    "incl. sparse one-hot, unsorted and negative values, IntEnums; 1-2 ways) and HwExpHistogram (1-4 buckets, 1-3 bit samples and "
+    "registers, 1-3 ways) with every call valuation in every state and every register compared with an integer model (wrap-around "
+    "reachable); with metrics disabled a transaction calling every metric method runs whenever ready and the design has no state.",
+    "explicit-state BFS of the real elaborated circuit against integer reference models")
+reg("C32", "tsx", "Complete reachability analysis of FIFOLatencyMeasurer, WideFIFOLatencyMeasurer and TaggedLatencyMeasurer (slots 1-4, "
+    "max_latency 1-6, ways 1-2, counts <= 2) in lock-step with a model of event ages; the calls made to histogram.add are observed: "
+    "exactly one per finished event with sample == age for ages <= max_latency.",
+    "explicit-state BFS of the real elaborated circuit against an event-age reference model",
+    note=E1_NOTE + " The histogram's accumulator registers are excluded from the state key after a structural check that nothing but "
+    "their own update reads them; inputs respect the documented usage (stop only events in flight, unique slot tags).")
